@@ -255,6 +255,13 @@ def run_child(d, spec, tag):
 
 
 def hook_key(hook, site):
+    if hook in ("metaclass.__hash__", "metaclass.__eq__"):
+        # class objects are hashed / compared wherever types are put into typing generics, sets and caches: one mechanism per
+        # source file (listed findings for the files where the representation of types makes it unavoidable)
+        return f"class-object-hashed-or-compared-via-its-metaclass@{site.split(':')[0]}"
+    if hook.startswith("metaclass.__getattribute__:") and site.startswith("encoding.py:"):
+        # serialising a class reads its __module__ / __qualname__ / __args__ the ordinary way, i.e. through the metaclass
+        return "class-attributes-read-through-its-metaclass-when-serialising@encoding.py"
     return f"user-code-run-by-tracer:{hook}@{site}"
 
 
@@ -279,6 +286,8 @@ def judge(res, un, tr, spec, wit):
         bad.append(("program-hook-journal-differs", f"the program's own hook invocations differ between the runs: {diff}"))
     if "MI" in surplus_labels:
         surplus_labels |= {r[0] for r in (un.get("results") or []) if "_MI" in r[0]}
+    if "MH" in surplus_labels:
+        surplus_labels |= {r[0] for r in (un.get("results") or []) if "_MH" in r[0]}
     ru = {r[0]: r[1:] for r in un.get("results") or []}
     rt = {r[0]: r[1:] for r in tr.get("results") or []}
     if set(ru) != set(rt):
@@ -319,6 +328,8 @@ def judge(res, un, tr, spec, wit):
     for f in spec.get("faults", {}):
         res.count("fault_plans_" + ("fired" if tr["fired"].get(f) else "not_fired"))
     res.count("tracer_callbacks", tr.get("tracer_callbacks", 0))
+    if spec.get("store_logger"):
+        res.count("runs_with_the_shipped_store_logger")
     if spec.get("program_sets_profile"):
         res.count("program_sets_profile_runs" + ("_with_preinstalled_profiler" if spec.get("preprofiler") else ""))
     for kd in tr.get("armed", []):
@@ -336,7 +347,7 @@ def work(p):
         open(path, "w").write(build_program(combos))
         base = {"program": path, "k": w.get("k", 0), "exit": w.get("exit", "return")}
         un, err = run_child(d, dict(base, mode="untraced"), f"{w['id']}u")
-        tspec = dict(base, mode="traced", faults=w.get("faults", {}), preprofiler=w.get("preprofiler", False),
+        tspec = dict(base, mode="traced", faults=w.get("faults", {}), preprofiler=w.get("preprofiler", False), store_logger=w.get("store_logger", False),
                      program_sets_profile=w.get("program_sets_profile", False), sample_rate=w.get("sample_rate"))
         tr, err2 = run_child(d, tspec, f"{w['id']}t")
         wit = {"workload": w}
@@ -387,8 +398,16 @@ def run(ck):
         for i in range(0, len(order), size):
             wid += 1
             workloads.append({"id": wid, "combos": order[i:i + size], "k": [0, 3, 3, 0][rep % 4], "exit": rs.choice(["return", "exception"]),
-                              "preprofiler": rs.random() < 0.5, "program_sets_profile": wid % 4 == 0, "sample_rate": [None, None, 2, 5][wid % 4]})
+                              "preprofiler": rs.random() < 0.5, "program_sets_profile": wid % 4 == 0, "sample_rate": [None, None, 2, 5][wid % 4],
+                              "store_logger": wid % 3 == 1})
         rs.shuffle(order)
+    # pinned witnesses of the listed findings (findings/C03/*.json), first in both tiers
+    fdir = os.path.join(core.VERIF, "findings", "C03")
+    for fn in sorted(os.listdir(fdir)) if os.path.isdir(fdir) else []:
+        wid += 1
+        w = json.load(open(os.path.join(fdir, fn)))["workload"]
+        workloads.insert(0, dict(w, id=f"pinned{wid}", combos=[tuple(c) for c in w["combos"]]))
+        ck.count("pinned_witnesses")
     # (c)+(d): fault plans x exit x pre-installed profiler
     plain = [c for c in combos if c[0] in ("HB", "TL", "TD", "DS", "MI") and c[1] in ("arg", "ret", "yield", "method_arg", "static_arg", "nested")]
     raising = [c for c in combos if c[0] == "CPraise"]
@@ -409,6 +428,7 @@ def run(ck):
         ck.need("armed:" + kd, 1, "hook kind never armed on an object the tracer saw")
     ck.need("tracer_callbacks", 2000)
     ck.need("fault_plans_fired", 20)
+    ck.need("runs_with_the_shipped_store_logger", 20)
     ck.need("program_sets_profile_runs_with_preinstalled_profiler", 3)
     if ck.counters.get("fault_plans_not_fired"):
         ck.note(f"{ck.counters['fault_plans_not_fired']} fault sites never fired in their workload (too few calls)")
